@@ -1,12 +1,115 @@
 /-
   UnytModel.Ops.C20 — opcodes of the C20 model (prefix `c20.`).
+  Strings travel as comma-separated code points (they may contain tabs and newlines).
 -/
 import UnytModel.DriverBase
+import UnytModel.Parse
+import UnytModel.Print
 
 namespace Unyt
+open Parse Print
 
-def opsC20 : Handler := fun _st fields =>
+def cpsToChars (s : String) : Option (List Char) :=
+  if s.isEmpty then some [] else
+  (s.splitOn ",").mapM fun t =>
+    match t.toNat? with
+    | some n => if n.isValidChar then some (Char.ofNat n) else none
+    | none => none
+
+def charsToCps (cs : List Char) : String := ",".intercalate (cs.map fun c => toString c.toNat)
+
+def exprOut (e : UExpr Rat) : String :=
+  s!"ok\t{ratStr e.coeff}\t{Factors.str (UExpr.normF e.factors)}"
+
+def resOut : Except PErr (UExpr Rat) → String
+  | .ok e => exprOut e
+  | .error c => s!"err\t{c.str}"
+
+/-- flat (tab-free) rendering of a parse result, for embedding in a longer reply -/
+def resFlat : Except PErr (UExpr Rat) → String
+  | .ok e => s!"ok|{ratStr e.coeff}|{Factors.str (UExpr.normF e.factors)}"
+  | .error c => s!"err|{c.str}"
+
+/-- Python's strict UTF-8 decoder (`bytes.decode("utf-8")`): no overlong forms, no surrogates,
+    nothing above U+10FFFF -/
+def decodeUtf8 : Nat → List Nat → Option (List Char)
+  | 0, _ => none
+  | _ + 1, [] => some []
+  | fuel + 1, b :: r =>
+    let cont (x : Nat) : Bool := 0x80 ≤ x && x ≤ 0xBF
+    if b < 0x80 then (decodeUtf8 fuel r).map (Char.ofNat b :: ·)
+    else if 0xC2 ≤ b && b ≤ 0xDF then
+      match r with
+      | b1 :: r' => if cont b1 then (decodeUtf8 fuel r').map (Char.ofNat ((b - 0xC0) * 64 + (b1 - 0x80)) :: ·) else none
+      | _ => none
+    else if 0xE0 ≤ b && b ≤ 0xEF then
+      match r with
+      | b1 :: b2 :: r' =>
+        let cp := (b - 0xE0) * 4096 + (b1 - 0x80) * 64 + (b2 - 0x80)
+        if cont b1 && cont b2 && cp ≥ 0x800 && !(0xD800 ≤ cp && cp ≤ 0xDFFF) then
+          (decodeUtf8 fuel r').map (Char.ofNat cp :: ·) else none
+      | _ => none
+    else if 0xF0 ≤ b && b ≤ 0xF4 then
+      match r with
+      | b1 :: b2 :: b3 :: r' =>
+        let cp := (b - 0xF0) * 262144 + (b1 - 0x80) * 4096 + (b2 - 0x80) * 64 + (b3 - 0x80)
+        if cont b1 && cont b2 && cont b3 && cp ≥ 0x10000 && cp ≤ 0x10FFFF then
+          (decodeUtf8 fuel r').map (Char.ofNat cp :: ·) else none
+      | _ => none
+    else none
+
+/-- `Unit(b)` for `bytes`: `b.decode("utf-8")`, then the string path -/
+def parseBytes (bs : List Nat) : Except PErr (UExpr Rat) :=
+  match decodeUtf8 (bs.length + 1) bs with
+  | none => .error .unitParseError                     -- UnicodeDecodeError, caught (fix C20-03)
+  | some cs => parseChars cs
+
+/-- NAME tokens compared up to `inv_name_alternatives` (`%` is printed for the symbol `percent`) -/
+def canonTok : Tok → Tok
+  | .name s => .name (canonTree s).toList
+  | t => t
+
+def opsC20 : Handler := fun st fields =>
   match fields with
+  -- Unit(str): parsed expression, and str()/repr() of the result
+  | ["c20.parse", cps] =>
+    match cpsToChars cps with
+    | none => some (st, "err\tUnitParseError")      -- lone surrogates: UnicodeEncodeError inside the try
+    | some cs =>
+      match parseChars cs with
+      | .ok e => some (st, exprOut e ++ s!"\t{charsToCps (unitStr e).toList}\t{charsToCps (unitRepr e).toList}")
+      | .error c => some (st, s!"err\t{c.str}")
+  | ["c20.bytes", bs] =>
+    match (if bs.isEmpty then some [] else (bs.splitOn ",").mapM (·.toNat?)) with
+    | none => none
+    | some l => some (st, resOut (parseBytes l))
+  -- str()/repr() of an expression and what they re-parse to
+  | ["c20.print", co, fac] =>
+    match parseRat co, Factors.parse fac with
+    | some c, some f =>
+      let e : UExpr Rat := ⟨c, f⟩
+      let s := unitStr e
+      let r := unitRepr e
+      some (st, s!"ok\t{charsToCps s.toList}\t{charsToCps r.toList}\t{resFlat (parseUnit s)}\t{resFlat (parseUnit r)}")
+    | _, _ => none
+  -- the layout level: tokens of the printed form parse back to the expression
+  | ["c20.layout", co, fac] =>
+    match parseRat co, Factors.parse fac with
+    | some c, some f =>
+      let e : UExpr Rat := ⟨c, f⟩
+      let a := printAst e
+      let viaTokens : Except PErr (UExpr Rat) :=
+        match parseTokens (renderTokens a) with
+        | none => .error .unitParseError
+        | some p => match evalP p with
+          | .ok (.mono x) => .ok x
+          | .ok _ => .error .unmodelled
+          | .error c => .error c
+      let lexed := match tokenize (rewrite (render a).toList) with
+        | .ok ts => if ts.map canonTok == (renderTokens a).map canonTok then "1" else "0"
+        | .error _ => "0"
+      some (st, s!"ok\t{resFlat (.ok (evalAst a))}\t{resFlat viaTokens}\t{lexed}")
+    | _, _ => none
   | _ => none
 
 end Unyt
